@@ -78,7 +78,9 @@ CLAIMED['C01'] = (
     'the segment get_segment_index finds for firstAvailableTime and covering the buffer depth; lemmas: every $Number$ '
     'whose 5.3.9.5.3 window contains now is accepted (region leeway >= 2 segment durations), every SegmentTimeline '
     'entry that has ended is accepted (region: uniform durations, start_number 0/1, leeway >= half a segment, stream '
-    'older than its window); complements are known findings with native witnesses.',
+    'older than its window); complements are known findings with native witnesses. ManifestContext.__init__ (single period, live) '
+    'creates the period from a DashTiming built for the request instant itself (wall clock minus requested drift) - the instant the '
+    'segment handler judges against; create_period hands the resolved availabilityStartTime / depth to the media URL parameters.',
     'Trusted: pyvc encoding; float as exact real in timescale_to_timedelta (bounded grid under C19). Both sides are assumed to '
     'be built from the same DashTiming (query-string forwarding is C07). Handler/template layer, init segments and the '
     '$Time$/SegmentTimeline half: see evidence not_covered.',
@@ -122,8 +124,12 @@ CLAIMED['C09'] = (
     'ServeManifest.get (400 mapping, patch only in live mode and only with a SegmentTimeline feature, SegmentTimeline flag, '
     'synthetic error passthrough, cache lifetime = floor(minimumUpdatePeriod)) and ServePatch.get (400 unless the manifest has the '
     'patch and SegmentTimeline features and allows live mode; options parsed for live, patch and SegmentTimeline forced on, the '
-    'original publish time is the requested epoch second).',
-    'Trusted: as C02/C08. The XML of the patch document (PatchLocation, replace operations) is template level and not covered.',
+    'original publish time is the requested epoch second; the patch template is rendered from the ManifestContext exactly as built). '
+    'ManifestContext.__init__ (single period, live): the period is created from a DashTiming for the request instant (clock minus drift); '
+    'the patch location names that timing\'s publishTime in whole seconds, ttl = max(timeShiftBufferDepth, ceil(minimumUpdatePeriod)). '
+    'xmlSafe returns Markup (PatchLocation is escaped exactly once in the auto-escaped patch template).',
+    'Trusted: as C02/C08. The XML of the patch document (replace operations, their selectors) is template level and not covered; applying a patch '
+    'to a document is not modelled.',
     'contract-based deductive verification: lemmas over function contracts (z3 + cvc5)')
 CLAIMED['C16'] = (
     'DESIGN.md 4 C16',
@@ -162,9 +168,13 @@ CLAIMED['C11'] = (
     'AES-ECB(key, bytes_le(kid)); generate_wrmheader hands the template the default key id (bytes_le), default key, its checksum, '
     'the per-key list (kid, checksum, algorithm) and the template of the header version; generate_pro frames the header as one '
     'type-1 record whose length fields parse_pro reads back exactly (object length = header + 10); the pssh box (system id, version-1 key-id list, data) encodes and parses back identically '
-    'for 0-3 key ids with and without data.',
-    'Trusted: byte-string model (bit-vector lists), SHA-256 / AES-ECB uninterpreted; byte trace for the pssh box. Not covered: WRMHEADER XML and its '
-    're-parse, PRO framing, ClearKey endpoint, ContentProtection elements (see evidence not_covered).',
+    'for 0-3 key ids with and without data. ClearKey: base64url_encode / base64url_decode equal RFC 4648 section 5 without padding bit for bit '
+    '(16-, 1-, 2-, 3-byte inputs; decode of encode is the identity), and ClearkeyHandler.post (0, 1 or 2 requested 16-byte ids, a store of two keys) '
+    'lists a stored key exactly when a requested id spells its key id, at most once, with its own key, and lists nothing else. xmlSafe returns '
+    'Markup, so a licence URL is escaped exactly once in the auto-escaped WRMHEADER / ClearKey templates.',
+    'Trusted: byte-string model (bit-vector lists), SHA-256 / AES-ECB uninterpreted; byte trace for the pssh box; base64.b64encode / b64decode as '
+    'RFC 4648 over 6-bit groups; Key.get_kids (database query) assumed. Not covered: WRMHEADER XML text and its '
+    're-parse, ClearKey requests with malformed ids or more than two ids, ContentProtection elements (see evidence not_covered).',
     'contract-based deductive verification (symbolic execution over fixed-length byte lists, z3), native replay')
 
 CLAIMED['C10'] = (
